@@ -7,7 +7,6 @@ import sys
 import traceback
 
 import common
-from props import PROPS
 
 
 def main():
@@ -22,7 +21,7 @@ def main():
         rp = json.load(open(a.path))
         prop = rp["property"]
         common.setup_python_env()
-        mod = importlib.import_module(PROPS[prop]["module"])
+        mod = importlib.import_module(prop.lower())
         drv = common.Driver()
         if hasattr(mod, "replay"):
             rc = mod.replay(rp, drv)
@@ -32,10 +31,12 @@ def main():
         drv.close()
         sys.exit(rc)
     prop = a.target
-    if prop not in PROPS:
+    if not os.path.exists(os.path.join(os.path.dirname(os.path.abspath(__file__)), prop.lower() + ".py")):
         print("unknown property", prop)
         sys.exit(2)
-    cfg = PROPS[prop]
+    common.setup_python_env()
+    mod = importlib.import_module(prop.lower())
+    cfg = mod.CONFIG
     rep = common.Report(prop, a.tier, seed)
     rep.trusted = list(common_trusted()) + cfg.get("trusted", [])
     rep.assumptions = cfg.get("assumptions", [])
@@ -49,7 +50,6 @@ def main():
         common.setup_python_env()
         if os.path.exists(common.DRIVER):
             drv = common.Driver()
-        mod = importlib.import_module(cfg["module"])
         mod.check(rep, a.tier, seed, drv)
     except Exception as e:  # a crash of the harness itself must not pass silently
         traceback.print_exc()
